@@ -239,7 +239,23 @@ theorem dawson_odd (exp : ℚ → ℚ) (x : ℚ) : dawson exp (-x) = - dawson ex
     exact dawsonLarge_odd exp x hx
 
 theorem erfi_odd (exp : ℚ → ℚ) (c x : ℚ) : erfi exp c (-x) = - erfi exp c x := by
-  unfold erfi; rw [dawson_odd]; ring_nf
+  unfold erfi
+  have : (1 : ℚ) / 2 * -x * -x = 1 / 2 * x * x := by ring
+  simp only [dawson_odd, this]; ring
+
+/-- **erfi_split_noop**: the evaluation order of 09597b4 is value-neutral whenever `exp` is
+    multiplicative at the one pair of arguments used, `exp(x²/2 + x²/2) = exp(x²/2)·exp(x²/2)` — a true
+    statement about the real exponential; over exact arithmetic only the order in which the double
+    products are formed changes (which is what avoids the intermediate overflow) -/
+theorem erfi_split_noop (exp : ℚ → ℚ) (c x : ℚ)
+    (hexp : exp (1 / 2 * x * x + 1 / 2 * x * x) = exp (1 / 2 * x * x) * exp (1 / 2 * x * x)) :
+    erfi exp c x = erfiDirect exp c x := by
+  unfold erfi erfiDirect
+  have hx : x * x = 1 / 2 * x * x + 1 / 2 * x * x := by ring
+  rw [hx, hexp]; ring
+
+example : (fun _ : ℚ => (1 : ℚ)) (1 / 2 * 3 * 3 + 1 / 2 * 3 * 3) = (fun _ : ℚ => (1 : ℚ)) (1 / 2 * 3 * 3) * (fun _ : ℚ => (1 : ℚ)) (1 / 2 * 3 * 3) := by
+  norm_num
 
 /-- the series branch is the exact polynomial `x − 2x³/3 + 4x⁵/15 − 8x⁷/105` -/
 theorem dawson_small (exp : ℚ → ℚ) (x : ℚ) (h : |x| < 2 / 10) :
